@@ -389,6 +389,11 @@ def write_evidence(prop: str, tier: str, seed: int, coverage: dict, wall: float,
     with open(tmp, "w", encoding="utf-8") as f:
         json.dump(doc, f, indent=1, sort_keys=True, default=str)
     os.replace(tmp, path)
+    if tier == "thorough":
+        # the quick tier rewrites <id>.json on every run; keep the last thorough result next to it
+        import shutil
+
+        shutil.copyfile(path, os.path.join(EVIDENCE_DIR, f"{prop}.thorough.json"))
     return path
 
 
